@@ -270,6 +270,10 @@ class AbstractOfflineSpecification(AbstractSpecification):
         self.explainer = explainer
 
     def explain(self):
+        # the explainer needs the bounds of the timed operators in samples
+        transformer = getattr(self.offline_interpreter, 'time_unit_transformer', None)
+        if transformer is not None and hasattr(self.explainer, 'set_bound_transformer'):
+            self.explainer.set_bound_transformer(transformer)
         self.explainer.explain(self.ast)
 
     # forwarding to interpreter
